@@ -3,40 +3,53 @@
 (* extra-kutil (a) - kfmt.PrefixWriter, property level.                      *)
 (*                                                                          *)
 (* STATEMENTS                                                               *)
-(* PW1  If the sink accepts every byte, then for every way of cutting the    *)
-(*      input into Write calls the sink receives the input with Prefix       *)
-(*      inserted immediately before the first byte of every line.  A line    *)
-(*      starts at the first byte ever written and at every byte that follows *)
-(*      a '\n'; the prefix is inserted *lazily*: a '\n' that is the last     *)
-(*      byte written so far has no prefix after it until another byte is     *)
-(*      written (inside one Write the prefix is handed to the sink as soon   *)
-(*      as the '\n' is, but only when the chunk continues).  Every Write     *)
-(*      returns (len(p), nil) - the prefix bytes are not counted - and an    *)
-(*      empty Write reaches the sink not at all.                             *)
-(* PW2  If the sink fails for good after accepting k bytes, it has received  *)
-(*      exactly the first k bytes of that stream, and each Write returns the *)
-(*      number of bytes of p among them together with the sink's error iff   *)
-(*      that number is smaller than len(p) (io.Writer's contract).           *)
-(* PW3  (as coded) With a sink that fails transiently the writer hands the   *)
-(*      sink: the prefix (when at a line start and p is not empty), then     *)
-(*      each maximal piece of p that ends with '\n' or with p, each piece    *)
-(*      that ends with '\n' before the end of p followed by the prefix.  The *)
-(*      first piece the sink refuses ends the call with (bytes of p accepted *)
-(*      so far, the sink's error).  Three deliberate deviations from what    *)
-(*      the doc comment / io.Writer suggest are modelled and named:          *)
-(*        Dev_PrefixErrIgnored      the result of a prefix write is dropped: *)
-(*                                  Write can return (len(p), nil) although  *)
-(*                                  prefix bytes never reached the sink;     *)
-(*        Dev_PrefixBeforeErrCheck  when a '\n'-piece inside the chunk is    *)
-(*                                  refused, the next line's prefix is still *)
-(*                                  handed to the sink before Write returns; *)
-(*        Dev_LineStateFromCount    the line-start flag is "the sink took 0  *)
-(*                                  bytes of the last unterminated piece"    *)
-(*                                  and is left untouched by a refused       *)
-(*                                  '\n'-piece: after an error the next      *)
-(*                                  Write may repeat the prefix in mid-line. *)
-(*      PWrite is that rule; Lazy is PW1/PW2; the design model checks that   *)
-(*      they coincide whenever the sink does not fail transiently.           *)
+(* PW1  As long as the sink has accepted every byte offered to it, then for  *)
+(*      every way of cutting the input into Write calls the sink receives    *)
+(*      the input with Prefix inserted immediately before the first byte of  *)
+(*      every line.  A line starts at the first byte ever written and at     *)
+(*      every byte that follows a '\n'; the prefix is inserted *lazily*: a   *)
+(*      '\n' that is the last byte written so far has no prefix after it     *)
+(*      until another byte is written.  Every such Write returns             *)
+(*      (len(p), nil) - the prefix bytes are not counted - and an empty      *)
+(*      Write reaches the sink not at all.  Write never modifies p / Prefix. *)
+(* PW2  The first Write during which the sink reports an error (it had k     *)
+(*      bytes of budget left): the sink has received at least k bytes in     *)
+(*      that call and the first k are exactly the first k bytes of the       *)
+(*      stream PW1 prescribes for p; whatever it received beyond them is a   *)
+(*      subsequence of the rest of that stream (nothing invented, nothing    *)
+(*      reordered).  Write returns n <= len(p) with a non-nil error whenever *)
+(*      n < len(p) (io.Writer); n does not exceed the bytes of p among those *)
+(*      first k bytes plus the bytes received beyond them; if it returns nil *)
+(*      every byte of p reached the sink, in order.  Whether the writer      *)
+(*      offered a prefix before or after the refused piece, whether a failed *)
+(*      prefix write is reported, and how much less than the maximum it      *)
+(*      reports are NOT constrained.                                        *)
+(* PW3  After the first sink error of a writer's life only io.Writer's       *)
+(*      contract is demanded of later Writes (0 <= n <= len(p), an error     *)
+(*      whenever n < len(p), n not above what the sink took in the call, no  *)
+(*      panic, p untouched): the documentation says nothing about the line   *)
+(*      state after an error and the code's choice is not pinned.            *)
+(*                                                                          *)
+(* REFINEMENT (leg M and case generation only, never a verdict about code):  *)
+(* PWrite is Write *as coded* under transient sink errors: prefix (at a line *)
+(* start, p not empty), then each maximal piece of p that ends with '\n' or  *)
+(* with p, each '\n'-piece before the end of p followed by the prefix; the   *)
+(* first refused piece ends the call.  Three choices of the code that a      *)
+(* natural reading of the doc comment / io.Writer would not make are named:  *)
+(*   Dev_PrefixErrIgnored      the result of a prefix write is dropped:      *)
+(*                             Write can return (len(p), nil) although       *)
+(*                             prefix bytes never reached the sink;          *)
+(*   Dev_PrefixBeforeErrCheck  when a '\n'-piece inside the chunk is         *)
+(*                             refused, the next line's prefix is still      *)
+(*                             handed to the sink before Write returns;      *)
+(*   Dev_LineStateFromCount    the line-start flag is "the sink took 0       *)
+(*                             bytes of the last unterminated piece" and is  *)
+(*                             untouched by a refused '\n'-piece: after an   *)
+(*                             error the next Write may repeat the prefix in *)
+(*                             mid-line.                                     *)
+(* The design model checks that its byte loop equals PWrite (AsCoded), that  *)
+(* PWrite equals the lazy stream whenever the sink does not fail             *)
+(* transiently (LazyOk), and that it satisfies the monitor (NoMismatch).     *)
 (*                                                                          *)
 (* Byte strings are KuSeg segment lists; chunks and prefixes are runs.       *)
 (* The sink is the environment: a byte budget `failAt` (bytes accepted       *)
@@ -137,25 +150,45 @@ AgreesWithLazy(prefix, mid, sk, p) ==
   /\ (~a.err => a.mid = ~l.atStart)
 
 --------------------------------------------------------------------------
-(* the monitor.  State: [prefix, mid, sk].  Events:                                                   *)
+(* the monitor.  State: [prefix, atStart, acc, failAt, failed].  Events:                               *)
 (*   [k |-> "pwcase", prefix, failAt, period, sticky]      a fresh writer over a fresh sink            *)
-(*   [k |-> "w", p, res ("ok"/"panic"), n, err ("nil"/"sink"/"other"), got, pmod]                     *)
-(*      got = bytes the sink accepted during the call, pmod = p or Prefix was modified by the call     *)
-PWInit == [prefix |-> <<>>, mid |-> FALSE, sk |-> NewSink(-1, 0, FALSE)]
+(*   [k |-> "w", p, res ("ok"/"panic"), n, err ("nil"/"sink"/"other"), got, serr, pmod]               *)
+(*      got = bytes the sink accepted during the call, serr = number of sink calls it answered with    *)
+(*      an error during the call, pmod = p or Prefix was modified by the call                          *)
+PWInit == [prefix |-> <<>>, atStart |-> TRUE, acc |-> 0, failAt |-> -1, failed |-> FALSE]
 PWMon(st, e) ==
   IF e.k = "pwcase"
-  THEN [st |-> [prefix |-> e.prefix, mid |-> FALSE, sk |-> NewSink(e.failAt, e.period, e.sticky)], cs |-> <<>>]
-  ELSE LET x == PWrite(st.prefix, st.mid, st.sk, e.p)
-           ok == e.res = "ok" IN
-       [st |-> [st EXCEPT !.mid = x.mid, !.sk = x.sk],
-        cs |-> << <<"PW", ~S!Runs(e.p) \/ ~S!Runs(st.prefix), <<"harness: chunks and prefixes must be logged as runs">> >>,
+  THEN [st |-> [prefix |-> e.prefix, atStart |-> TRUE, acc |-> 0, failAt |-> e.failAt, failed |-> FALSE], cs |-> <<>>]
+  ELSE LET ok == e.res = "ok"
+           len == S!Total(e.p)
+           glen == S!Total(e.got)
+           want == Lazy(st.prefix, st.atStart, -1, e.p)                    \* PW1: the whole image of p
+           healthy == ~st.failed /\ e.serr = 0
+           first == ~st.failed /\ e.serr > 0
+           b == IF st.failAt < 0 THEN 0 ELSE st.failAt - st.acc             \* budget before the call (while not failed)
+           nmax == IF first THEN Lazy(st.prefix, st.atStart, b, e.p).n + (glen - b) ELSE 0
+       IN
+       [st |-> [st EXCEPT !.atStart = want.atStart, !.acc = @ + glen, !.failed = @ \/ e.serr > 0],
+        cs |-> << <<"PW", ~S!Runs(e.p) \/ ~S!Runs(st.prefix) \/ ~S!Runs(e.got), <<"harness: byte strings must be logged as runs">> >>,
                   <<"PW", ~ok, <<"Write panicked">> >>,
-                  <<"PW", ok /\ ~S!Same(e.got, x.out),
-                     IF ok THEN <<"sink must receive", x.out, "received", e.got, "chunk", e.p, "prefix", st.prefix,
-                                  "at line start", ~st.mid, "sink", st.sk>> ELSE <<>> >>,
-                  <<"PW", ok /\ e.n # x.written, IF ok THEN <<"Write must return", x.written, "returned", e.n, "chunk", e.p, "sink", st.sk>> ELSE <<>> >>,
-                  <<"PW", ok /\ e.err # (IF x.err THEN "sink" ELSE "nil"),
-                     IF ok THEN <<"Write must return the sink's error exactly when a piece of p was refused: expected",
-                                  IF x.err THEN "sink" ELSE "nil", "returned", e.err>> ELSE <<>> >>,
-                  <<"PW", ok /\ e.pmod, <<"Write modified the caller's slice or the prefix">> >> >>]
+                  <<"PW", ok /\ e.pmod, <<"Write modified the caller's slice or the prefix">> >>,
+                  \* io.Writer, every call
+                  <<"PW", ok /\ (e.n < 0 \/ e.n > len), <<"Write returned a count outside 0..len(p):", e.n, len>> >>,
+                  <<"PW", ok /\ e.n < len /\ e.err = "nil", <<"Write returned", e.n, "of", len, "bytes without an error">> >>,
+                  <<"PW", ok /\ e.n > glen, <<"Write claims", e.n, "bytes of p but the sink took only", glen, "bytes in the call">> >>,
+                  \* PW1
+                  <<"PW", ok /\ healthy /\ ~S!Same(e.got, want.out),
+                     IF ok /\ healthy THEN <<"sink must receive", want.out, "received", e.got, "chunk", e.p, "prefix", st.prefix,
+                                             "at line start", st.atStart>> ELSE <<>> >>,
+                  <<"PW", ok /\ healthy /\ (e.n # len \/ e.err # "nil"),
+                     <<"the sink accepted everything: Write must return", len, "nil; returned", e.n, e.err>> >>,
+                  \* PW2
+                  <<"PW", ok /\ first /\ (glen < b \/ ~S!Same(S!Take(e.got, b), S!Take(want.out, b))),
+                     IF ok /\ first THEN <<"up to its first refusal the sink must receive", S!Take(want.out, b), "received", S!Take(e.got, b),
+                                           "chunk", e.p, "prefix", st.prefix, "at line start", st.atStart>> ELSE <<>> >>,
+                  <<"PW", ok /\ first /\ glen >= b /\ ~S!Subseq(S!Drop(e.got, b), S!Drop(want.out, b)),
+                     IF ok /\ first THEN <<"after its first refusal the sink received", S!Drop(e.got, b), "which is not part of", S!Drop(want.out, b)>> ELSE <<>> >>,
+                  <<"PW", ok /\ first /\ e.n > nmax, <<"Write claims", e.n, "bytes of p, the sink can have taken at most", nmax>> >>,
+                  <<"PW", ok /\ first /\ e.err = "nil" /\ ~S!Subseq(e.p, e.got),
+                     <<"Write reported success but the sink did not receive all of p:", e.got>> >> >>]
 ====
